@@ -50,6 +50,14 @@ def gen_exprs(rnd, n):
     out += [("{'b': 1, 'a': 2, 'c': 0}.keys()", ['a', 'b', 'c']), ('true and false', False), ('false or true', True), ('not false', True),
             ('1 < 2 and 2 < 3', True), ('1 + 2 * 3 - 4', 3), ('(1 + 2) * 3', 9), ('7 - 2 - 1', 4), ('2 * 3 % 4', 2), ('true ? 1 : 2', 1), ('false ? 1 : 2', 2),
             ('3 in [1, 2, 3]', True), ('4 not in [1, 2, 3]', True), ("'a' + 'b'", 'ab'), ('[1] + [2, 3]', [1, 2, 3]), ('-3 + 5', 2), ('1 == 1', True), ('1 != 1', False),
+            # string methods per the reference manual; format() substitutes every @N@ of the TEMPLATE once, inserted text is not scanned
+            ("'@0@-@1@'.format('@1@', 'x')", '@1@-x'), ("'@1@-@0@'.format('@1@', 'x')", 'x-@1@'), ("'@0@@0@'.format('a')", 'aa'), ("'@1@@0@'.format('a', 'b')", 'ba'),
+            ("'@0@'.format('@0@')", '@0@'), ("'@0@ and @1@'.format(1, true)", '1 and true'), ("' a b '.strip()", 'a b'), ("'a,b,,c'.split(',')", ['a', 'b', '', 'c']),
+            ("'abc'.to_upper()", 'ABC'), ("'a-b.c'.underscorify()", 'a_b_c'), ("'x'.join(['a', 'b', 'c'])", 'axbxc'), ("'abc'.contains('bc')", True), ("'abc'.startswith('bc')", False),
+            ("'abc'.endswith('bc')", True), ("'37'.to_int()", 37), ("'abcdef'.substring(1, 3)", 'bc'), ("'abcdef'.substring(-2)", 'ef'), ("'aXbXc'.replace('X', '@0@')", 'a@0@b@0@c'),
+            ("'1.2.3'.version_compare('>=1.2')", True), ("'a' + 'b' == 'ab'", True), ("'b' > 'a'", True), ("'abc'[1]" if False else "'x' in 'axb'", True),
+            ("{'b': 1, 'a': 2}.get('a')", 2), ("{'b': 1}.get('z', 9)", 9), ("{'b': 1}.has_key('b')", True), ("[1, 2, 3].contains(2)", True), ("[3, 1, 2].length()", 3), ("[1, [2, 3]].get(1)", [2, 3]),
+            ("7.is_odd()", True), ("8.is_even()", True), ("7.to_string()", '7'), ("true.to_int()", 1), ("true.to_string('yes', 'no')", 'yes'),
             ("'a\\nb'.split('\\n').length()", 2), ("'''a\\nb'''.split('\\n').length()", 1), ("'x' == 'x'", True), ('[1, 2] == [1, 2]', True)]
     return out
 
